@@ -75,6 +75,7 @@ structure Chunk where
   nSent : BitVec 32 := 0
   missIndicator : BitVec 32 := 0
   since : Nat := 0                      -- virtual ms of the last (re)transmission
+  firstSent : Nat := 0                  -- virtual ms of the first transmission (timed partial reliability counts from here)
   deriving Inhabited, BEq, Repr
 
 structure Stream where
@@ -270,7 +271,7 @@ def checkPR (s : St) (aband : List Nat) (c : Chunk) : List Nat :=
       else if st.relType == BitVec.ofNat 8 ReliabilityTypeRexmit then
         (if c.nSent ≥ st.relVal then c.msg :: aband else aband)
       else if st.relType == BitVec.ofNat 8 ReliabilityTypeTimed then
-        (if s.now - c.since ≥ st.relVal.toNat then c.msg :: aband else aband)
+        (if s.now - c.firstSent ≥ st.relVal.toNat then c.msg :: aband else aband)
       else aband
 
 /-- bytes in the current packet after the "does not fit: start a new packet and retry" step of the gather loops -/
@@ -370,7 +371,7 @@ def popPend (s : St) (i : Nat) (c : Chunk) : St :=
 def move (s : St) (i : Nat) (c : Chunk) : St × Chunk :=
   let s1 := popPend s i c
   let allInf := if c.efrag then c.msg :: s1.allInflightMsgs else s1.allInflightMsgs
-  let c' := { c with tsn := s1.myNextTSN, since := s1.now, nSent := 1 }
+  let c' := { c with tsn := s1.myNextTSN, since := s1.now, firstSent := s1.now, nSent := 1 }
   let s2 := { s1 with allInflightMsgs := allInf, myNextTSN := s1.myNextTSN + 1 }
   let aband := checkPR s2 s2.abandonedMsgs c'
   ({ s2 with abandonedMsgs := aband, inflight := s2.inflight ++ [c'], infBytes := s2.infBytes + (c'.len : Int) }, c')
